@@ -9,6 +9,7 @@ import (
 	"os"
 	"os/exec"
 	"strings"
+	"sync/atomic"
 	"time"
 )
 
@@ -26,6 +27,10 @@ type Stats struct {
 	Queries, SatN, UnsatN, UnknownN int
 	SolverTime                      time.Duration
 	Errors                          []string
+	// queries the incremental solver answered unknown that were re-decided by fresh one-shot solvers
+	FallbackN, FallbackOK int
+	FallbackTime          time.Duration
+	FallbackBy            map[string]int
 }
 
 // Solver drives one persistent `z3 -in` process.
@@ -36,10 +41,12 @@ type Solver struct {
 	out       *bufio.Reader
 	scopes    [][]*Term // terms (and decls) emitted in each open scope; scopes[0] = global
 	ufs       []map[string]bool
+	lines     [][]string // state-building commands (declare/define/assert) sent in each open scope
 	Stats     Stats
 	Log       io.Writer // optional transcript
 	TimeoutMs int
 	Dead      bool // the process stopped answering (crashed or killed by the watchdog)
+	fbFailed  int  // fallbacks that stayed unknown (the fallback is switched off after 20)
 	bin       string
 	args      []string
 }
@@ -92,6 +99,7 @@ func (s *Solver) start() error {
 	s.out = bufio.NewReaderSize(r, 1<<16)
 	s.scopes = [][]*Term{nil}
 	s.ufs = []map[string]bool{{}}
+	s.lines = [][]string{nil}
 	s.send("(set-option :print-success false)")
 	if strings.HasPrefix(filepath.Base(s.bin), "z3") {
 		s.send(fmt.Sprintf("(set-option :timeout %d)", s.TimeoutMs))
@@ -125,6 +133,9 @@ func (s *Solver) send(line string) {
 	if s.Log != nil {
 		fmt.Fprintln(s.Log, line)
 	}
+	if strings.HasPrefix(line, "(de") || strings.HasPrefix(line, "(assert") {
+		s.lines[len(s.lines)-1] = append(s.lines[len(s.lines)-1], line)
+	}
 	s.in.WriteString(line)
 	s.in.WriteByte('\n')
 }
@@ -135,6 +146,7 @@ func (s *Solver) Push() {
 	s.send("(push 1)")
 	s.scopes = append(s.scopes, nil)
 	s.ufs = append(s.ufs, map[string]bool{})
+	s.lines = append(s.lines, nil)
 }
 
 func (s *Solver) Pop(n int) {
@@ -148,6 +160,7 @@ func (s *Solver) Pop(n int) {
 		}
 		s.scopes = s.scopes[:len(s.scopes)-1]
 		s.ufs = s.ufs[:len(s.ufs)-1]
+		s.lines = s.lines[:len(s.lines)-1]
 	}
 	s.send(fmt.Sprintf("(pop %d)", n))
 }
@@ -311,6 +324,22 @@ func (s *Solver) Check(assumps ...*Term) Result {
 		}
 		fmt.Fprintf(os.Stderr, "SLOWQ %.1fs %v:%s\n", d.Seconds(), res, txt)
 	}
+	if res == Unknown && !s.Dead {
+		if d := os.Getenv("GOSX_DUMPUNK"); d != "" {
+			os.WriteFile(filepath.Join(d, fmt.Sprintf("unk-%d-%d.smt2", os.Getpid(), time.Now().UnixNano())), []byte(s.script(refs, nil)), 0o644)
+		}
+		if os.Getenv("GOSX_NO_FALLBACK") == "" && s.fbFailed < 20 {
+			res = s.fallback(refs)
+		}
+	} else if forceFallbackEvery > 0 && !s.Dead && s.Stats.Queries%forceFallbackEvery == 0 {
+		// self-test (GOSX_FORCE_FALLBACK=k): every k-th definite answer is re-decided by the fresh
+		// solvers as well; a different definite answer is a solver disagreement and spoils the run
+		if r2 := s.fallback(refs); r2 != Unknown && r2 != res {
+			s.Stats.Errors = append(s.Stats.Errors, fmt.Sprintf("solver disagreement: incremental %v, fresh %v", res, r2))
+		} else if r2 == Sat {
+			// keep the model of the pinned re-check: it is the one GetValues will read
+		}
+	}
 	switch res {
 	case Sat:
 		s.Stats.SatN++
@@ -320,6 +349,219 @@ func (s *Solver) Check(assumps ...*Term) Result {
 		s.Stats.UnknownN++
 	}
 	return res
+}
+
+// script is the solver's current state plus the assumptions as a standalone SMT-LIB2 problem;
+// with consts it also asks for their model values.
+func (s *Solver) script(refs []string, consts []string) string {
+	var sb strings.Builder
+	for _, sc := range s.lines {
+		for _, l := range sc {
+			sb.WriteString(l)
+			sb.WriteByte('\n')
+		}
+	}
+	for _, r := range refs {
+		sb.WriteString("(assert " + r + ")\n")
+	}
+	sb.WriteString("(check-sat)\n")
+	if len(consts) > 0 {
+		sb.WriteString("(get-value (" + strings.Join(consts, " ") + "))\n")
+	}
+	return sb.String()
+}
+
+// scalarConsts lists the declared constants of sort Int, Bool or BitVec in the open scopes.
+func (s *Solver) scalarConsts() []string {
+	var out []string
+	for _, sc := range s.lines {
+		for _, l := range sc {
+			if !strings.HasPrefix(l, "(declare-const ") {
+				continue
+			}
+			f := strings.SplitN(strings.TrimSuffix(l[len("(declare-const "):], ")"), " ", 2)
+			if len(f) == 2 && (f[1] == "Int" || f[1] == "Bool" || strings.HasPrefix(f[1], "(_ BitVec ")) {
+				out = append(out, f[0])
+			}
+		}
+	}
+	return out
+}
+
+type fbAnswer struct {
+	solver string
+	res    Result
+	model  string // raw get-value answer after sat
+}
+
+// runOnce decides script in a fresh solver process (no incremental state).
+func runOnce(name string, argv []string, script string, limit time.Duration, stop <-chan struct{}) fbAnswer {
+	ans := fbAnswer{solver: name, res: Unknown}
+	cmd := exec.Command(argv[0], argv[1:]...)
+	cmd.Stdin = strings.NewReader(script)
+	var out strings.Builder
+	cmd.Stdout = &out
+	if err := cmd.Start(); err != nil {
+		return ans
+	}
+	done := make(chan struct{})
+	go func() { cmd.Wait(); close(done) }()
+	select {
+	case <-done:
+	case <-stop:
+		cmd.Process.Kill()
+		<-done
+		return ans
+	case <-time.After(limit + 5*time.Second):
+		cmd.Process.Kill()
+		<-done
+		return ans
+	}
+	txt := out.String()
+	if strings.Contains(txt, "(error") && !strings.HasPrefix(strings.TrimSpace(txt), "unsat") {
+		// an error before or instead of the verdict: the solver did not take the whole problem.
+		// (after "unsat" the only possible error is the get-value that has no model to print)
+		return ans
+	}
+	first, rest, _ := strings.Cut(strings.TrimSpace(txt), "\n")
+	switch strings.TrimSpace(first) {
+	case "sat":
+		ans.res, ans.model = Sat, rest
+	case "unsat":
+		ans.res = Unsat
+	}
+	return ans
+}
+
+func sexpText(e *sexp) string {
+	if e.list == nil && e.atom != "" {
+		return e.atom
+	}
+	var parts []string
+	for _, c := range e.list {
+		parts = append(parts, sexpText(c))
+	}
+	return "(" + strings.Join(parts, " ") + ")"
+}
+
+var pinSeq atomic.Int64
+
+var forceFallbackEvery = func() int {
+	n := 0
+	fmt.Sscan(os.Getenv("GOSX_FORCE_FALLBACK"), &n)
+	return n
+}()
+
+// fallback re-decides a query the incremental solver gave up on: the same problem (every command of
+// the open scopes plus the assumptions) goes to fresh one-shot processes of z3 5.1.0, z3 4.8.12 and
+// cvc5, which run concurrently without the learned state of the long-lived process; the first definite
+// answer wins. unsat is returned as is. For sat the model of the scalar constants is pinned as one more
+// assumption on the incremental solver, whose own sat answer (and model, for GetValues) is returned;
+// if it does not confirm, the query stays unknown.
+func (s *Solver) fallback(refs []string) Result {
+	t0 := time.Now()
+	s.Stats.FallbackN++
+	limit := time.Duration(3*s.TimeoutMs) * time.Millisecond
+	if limit < 60*time.Second {
+		limit = 60 * time.Second
+	}
+	ms := limit.Milliseconds()
+	consts := s.scalarConsts()
+	body := s.script(refs, consts)
+	type eng struct {
+		name   string
+		argv   []string
+		header string
+	}
+	var engines []eng
+	zhdr := fmt.Sprintf("(set-option :timeout %d)\n(set-option :produce-models true)\n", ms)
+	for _, b := range []string{"z3-new", "z3"} {
+		if p, err := exec.LookPath(b); err == nil {
+			engines = append(engines, eng{b, []string{p, "-in", "-smt2"}, zhdr})
+		}
+	}
+	if p, err := exec.LookPath("cvc5"); err == nil {
+		engines = append(engines, eng{"cvc5", []string{p, "--lang=smt2", "--produce-models", fmt.Sprintf("--tlimit=%d", ms)}, "(set-logic ALL)\n"})
+	}
+	stop := make(chan struct{})
+	ch := make(chan fbAnswer, len(engines))
+	for _, e := range engines {
+		go func(e eng) { ch <- runOnce(e.name, e.argv, e.header+body, limit, stop) }(e)
+	}
+	best := fbAnswer{res: Unknown}
+	for range engines {
+		a := <-ch
+		if a.res != Unknown {
+			best = a
+			break
+		}
+	}
+	close(stop)
+	res := best.res
+	if res == Sat {
+		res = s.pinModel(refs, consts, best.model)
+	}
+	s.Stats.FallbackTime += time.Since(t0)
+	if res == Unknown {
+		s.fbFailed++
+	} else {
+		s.Stats.FallbackOK++
+		if s.Stats.FallbackBy == nil {
+			s.Stats.FallbackBy = map[string]int{}
+		}
+		s.Stats.FallbackBy[best.solver+":"+res.String()]++
+	}
+	return res
+}
+
+// pinModel asks the incremental solver for sat under refs plus the fallback's model of the scalar constants.
+func (s *Solver) pinModel(refs, consts []string, model string) Result {
+	toks := tokenize(model)
+	pos := 0
+	ex, err := parseSexp(toks, &pos)
+	if err != nil || len(ex.list) != len(consts) {
+		return Unknown
+	}
+	var eqs []string
+	for k, pair := range ex.list {
+		if len(pair.list) != 2 || sexpText(pair.list[0]) != consts[k] {
+			return Unknown
+		}
+		eqs = append(eqs, "(= "+consts[k]+" "+sexpText(pair.list[1])+")")
+	}
+	if len(eqs) == 0 {
+		return Unknown
+	}
+	pin := fmt.Sprintf("gosx_pin_%d_%d", os.Getpid(), pinSeq.Add(1))
+	s.send(fmt.Sprintf("(define-fun %s () Bool (and true %s))", pin, strings.Join(eqs, " ")))
+	s.send("(check-sat-assuming (" + strings.Join(append(append([]string{}, refs...), pin), " ") + "))")
+	s.in.Flush()
+	proc := s.cmd.Process
+	wd := time.AfterFunc(time.Duration(s.TimeoutMs)*time.Millisecond+30*time.Second, func() { proc.Kill() })
+	defer wd.Stop()
+	for {
+		line, err := s.readLine()
+		if err != nil {
+			s.Stats.Errors = append(s.Stats.Errors, "solver died: "+err.Error())
+			s.Dead = true
+			return Unknown
+		}
+		switch {
+		case line == "":
+		case line == "sat":
+			return Sat
+		case line == "unsat":
+			// the two solvers disagree on a ground model: trust neither
+			s.Stats.Errors = append(s.Stats.Errors, "fallback model rejected by the incremental solver")
+			return Unknown
+		case line == "unknown" || line == "timeout":
+			return Unknown
+		case strings.HasPrefix(line, "(error"):
+			s.Stats.Errors = append(s.Stats.Errors, line)
+		default:
+			s.Stats.Errors = append(s.Stats.Errors, "unexpected: "+line)
+		}
+	}
 }
 
 // Value is a model value.
